@@ -47,7 +47,7 @@ def run(tier, seed):
     import unyt.dimensions as D
 
     chk = core.Check("C05", tier, seed)
-    chk.proof = core.prove("C05", PROOF_MODULES)
+    chk.proof = core.prove("C05", PROOF_MODULES, tier=tier)
     rng = chk.rng
     ex = gen.extract()
     atoms = list(ex["lut"].keys())
